@@ -56,7 +56,13 @@ TAcc == /\ IsEvent("Acc")
         /\ Rec[l].null = BytesIsNull(s) /\ Rec[l].acclen = LenOrZero(s)
         /\ UNCHANGED vars
 
-TNext == TNew \/ TWriteBegin \/ TGrow \/ TWriteEnd \/ TFlush \/ TAcc
+\* diplomat_buffer_write_destroy: every byte the runtime allocated for the writer (at creation and while growing) is released
+TDestroy == /\ IsEvent("Destroy")
+            /\ s.kind = "rust_owned" /\ s.pc = "idle"
+            /\ Rec[l].leaked = 0
+            /\ UNCHANGED vars
+
+TNext == TNew \/ TWriteBegin \/ TGrow \/ TWriteEnd \/ TFlush \/ TAcc \/ TDestroy
 TSpec == TInit /\ [][TNext]_tvars
 
 Accepted ==
